@@ -196,6 +196,16 @@ def generate(rng, tier, shard, nshards):
         trie = {"n": 5, "I": [[0, [1, 1]]], "F": [[3, w], [4, w]],
                 "arcs": [[0, x, 1, [1, 2]], [0, z, 2, [1, 2]], [1, y, 3, [1, 2]], [2, y, 4, [1, 2]]]}
         yield event("min", {"A": trie, "L": 3}, site="WFSA.min", feat="min-of-trie")
+        # two machines of n states each that agree on every word up to length n and differ on a^(n+1): the joint
+        # forward space has dimension up to 2n, the search must not stop at n
+        for n in (2, 3):
+            wc = rng.choice([[1, 1], [1, 2]])
+            cyc = {"n": n, "I": [[0, [1, 1]]], "F": [[0, [1, 1]]], "arcs": [[q, "a", (q + 1) % n, wc] for q in range(n)]}
+            late = copy.deepcopy(cyc)
+            late["arcs"].append([n - 1, "a", n - 1, [1, 2]])
+            for X, Y, ft in ((cyc, late, "late-difference"), (late, cyc, "late-difference/swapped")):
+                yield event("cex", {"A": X, "B": Y}, site="counterexample", feat=ft)
+                yield event("eq", {"A": X, "B": Y}, site="__eq__/__hash__", feat=ft)
         lift = lambda w: {"n": 2, "I": [[0, [1, 1]]], "F": [[1, [1, 1]]], "arcs": [[0, "a", 1, w]]}
         yield event("eq", {"A": lift([1, 2]), "B": lift([3, 4])}, site="__eq__/__hash__", feat="lift-noninteger")
         yield event("cex", {"A": lift([1, 2]), "B": lift([3, 4])}, site="counterexample", feat="lift-noninteger")
